@@ -3,13 +3,14 @@
 import json
 claimed = {
  "C01": ("every KV write entry point, one step from an arbitrary invariant-satisfying bucket (2 collections sharing keys, 2 symbolic document slots + 1 spare): success/refusal condition, read-back body/expiry/JSON flag, frame (no other row or table changes), error => whole database unchanged", "1-step(Inv) over a relational stub of SQLite; bodies opaque; clock readings < 2^62; rev < 2^62"),
- "C02": ("CAS-conditional entry points, one step from an arbitrary state with a fully symbolic expected CAS (covers 0, current, stale, never-issued): applied iff current, refused => unchanged", "sequential; the two-writer race is not yet encoded"),
- "C04": ("HLC kernel for all 64-bit highestTime < 2^63 and all clock-reading sequences of length 4; per write entry point the stored CAS is the fresh HLC value and both high-water marks record it", "counter wrap at 2^63 outside; reopen after close and after kill with a fresh HLC and arbitrary clock: next CAS above every earlier one; concurrency not yet encoded"),
+ "C02": ("CAS-conditional entry points, one step from an arbitrary state with a fully symbolic expected CAS (covers 0, current, stale, never-issued): applied iff current, refused => unchanged", "plus the two-writer races WriteCas||WriteCas and Remove||WriteCas on a version both hold (preemption bound 2/3): never both applied"),
+ "C03": ("two client goroutines through two handles (copy()) on one key, schedule explored by the executor with context switches before every lock / SQL / channel / condition operation and a preemption bound of 2 (quick) / 3 (thorough), data symbolic: Incr||Incr (in-memory and on-disk connection budgets) never loses an increment, Update||Update never loses an update, a read concurrent with a write returns the old or the new version", "schedules are not replayed natively; more than 2 client threads / preemption bound outside; sequentially consistent memory between visible actions"),
+ "C04": ("HLC kernel for all 64-bit highestTime < 2^63 and all clock-reading sequences of length 4; per write entry point the stored CAS is the fresh HLC value and both high-water marks record it", "counter wrap at 2^63 outside; reopen after close and after kill with a fresh HLC and arbitrary clock: next CAS above every earlier one; two concurrent writers get distinct CAS values in commit order"),
  "C05": ("tombstone coherence as an inductive invariant (tombstone flag iff no body, delete keeps exactly system xattrs and clears expiry, body over tombstone drops xattrs) preserved by every KV write entry point", "xattr names over a 2-element universe (closed world)"),
  "C06": ("insert-style entry points (Add, AddRaw, WriteCas AddOnly / CAS 0) from an arbitrary invariant state: succeed iff no body, refused => every document untouched", "relies on the C05 invariant for 'deleted by any path'"),
  "C07": ("body-only writers (SetRaw, WriteCas, Incr) leave all xattrs of a live document byte-for-byte intact", "xattr entry points pending"),
- "C08": ("live feed, sequential part: for every KV and xattr write entry point from an arbitrary state, with real dcpFeed queues registered through the writing handle, a second handle (copy()) and another collection: exactly one event per successful mutation on each feed of the collection, none elsewhere, none on failure/refusal, and the event's key/opcode/body+xattrs encoding/datatype/CAS/expiry/revision equal the post-state row", "event order under concurrent writers not yet encoded"),
- "C09": ("backfill over an arbitrary invariant-satisfying table (2 symbolic rows quick, 3 thorough) and arbitrary start CAS: one event per document of the collection with CAS >= start, in CAS order, each field-equal to the live-event oracle for that row", "feed start racing a writer not yet encoded"),
+ "C08": ("live feed, sequential part: for every KV and xattr write entry point from an arbitrary state, with real dcpFeed queues registered through the writing handle, a second handle (copy()) and another collection: exactly one event per successful mutation on each feed of the collection, none elsewhere, none on failure/refusal, and the event's key/opcode/body+xattrs encoding/datatype/CAS/expiry/revision equal the post-state row", "plus two concurrent writers and one feed (preemption bound 2/3): events reach the queue in increasing CAS order"),
+ "C09": ("backfill over an arbitrary invariant-satisfying table (2 symbolic rows quick, 3 thorough) and arbitrary start CAS: one event per document of the collection with CAS >= start, in CAS order, each field-equal to the live-event oracle for that row", "plus StartDCPFeed(backfill) racing a writer (preemption bound 2/3): the writer's version is delivered by backfill or live"),
  "C10": ("scoped to rosmar's own code: on the on-disk configuration (8 pooled connections) with up to 1 (quick) / 2 (thorough) symbolic Begin/Exec/Commit faults (BUSY or I/O error), every KV write entry point commits all of its effects (row, CAS, expiry, revision, both high-water marks) in exactly one commit before returning success, and commits nothing and changes nothing when it returns an error; BUSY retries included", "physical durability of a committed SQLite/WAL transaction across kill -9 is trusted (cgo/OS, not encodable); reopen after close/kill keeps data, UUID, expiry and re-arms the expiry timer"),
  "C19": ("SELECT id, body, xattrs FROM $_keyspace (and WHERE id = $k) over an arbitrary two-collection table, in-memory (pre-recorded iterator) and on-disk (streaming iterator): rows are exactly the live documents of the collection, each once, with current id/body/xattrs", "JSON-property filters use uninterpreted extraction; 2 document slots"),
  "C11": ("frame condition of every KV write entry point with the same key present in two collections: no row of another collection, no other table, and not the other collection's high-water mark change", "DropDataStore, views, queries pending"),
@@ -18,7 +19,6 @@ claimed = {
  "C17": ("revision number +1 (1 on creation) for every KV write entry point from an arbitrary state", "feed/virtual-xattr agreement pending"),
 }
 notyet = {
- "C03": "concurrency engine (2-thread symbolic schedules) not registered yet",
  "C12": "view harnesses not registered yet",
  "C15": "checkpoint harnesses not registered yet",
  "C16": "feed lifecycle harnesses not registered yet",
